@@ -8,6 +8,16 @@ import Chrono.Proofs.PrimL
 namespace Chrono.Proofs
 open Chrono Chrono.M Chrono.Spec Chrono.Extracted
 
+/-- decidable equality of `ParseResult` values (core `Except` has none), so that closed instances
+of the resolver can be evaluated by `decide +kernel` in the non-vacuity examples -/
+instance exceptDecEqC14 {ε α} [DecidableEq ε] [DecidableEq α] : DecidableEq (Except ε α) := fun a b =>
+  match a, b with
+  | .ok x, .ok y => if h : x = y then isTrue (by rw [h]) else isFalse (fun e => h (Except.ok.inj e))
+  | .error x, .error y =>
+    if h : x = y then isTrue (by rw [h]) else isFalse (fun e => h (Except.error.inj e))
+  | .ok _, .error _ => isFalse (fun e => by cases e)
+  | .error _, .ok _ => isFalse (fun e => by cases e)
+
 /-! ### setters -/
 
 /-- the common shape of all setters: guard the argument, `set_if_consistent`, store -/
@@ -69,6 +79,62 @@ theorem toI32_inj (a b x y : Int) (h1 : Parsed.toI32 a = .ok x) (h2 : Parsed.toI
 theorem inRange_inj (lo hi : Int) (a b x y : Int) (h1 : Parsed.inRange a lo hi = .ok x)
     (h2 : Parsed.inRange b lo hi = .ok y) : (x = y ↔ a = b) := by
   rw [inRange_ok] at h1 h2; omega
+
+theorem twice_year (p p1 : Parsed) (a b : Int) (h : p.set_year a = .ok p1) :
+    (∃ p2, p1.set_year b = .ok p2) ↔ a = b :=
+  twice_generic Parsed.toI32 (·.year) (fun p f => { p with year := f }) (fun _ _ => rfl) toI32_inj p p1 a b h
+theorem twice_year_div_100 (p p1 : Parsed) (a b : Int) (h : p.set_year_div_100 a = .ok p1) :
+    (∃ p2, p1.set_year_div_100 b = .ok p2) ↔ a = b :=
+  twice_generic (Parsed.inRange · 0 I32_MAX) (·.year_div_100) (fun p f => { p with year_div_100 := f }) (fun _ _ => rfl) (inRange_inj 0 I32_MAX) p p1 a b h
+theorem twice_year_mod_100 (p p1 : Parsed) (a b : Int) (h : p.set_year_mod_100 a = .ok p1) :
+    (∃ p2, p1.set_year_mod_100 b = .ok p2) ↔ a = b :=
+  twice_generic (Parsed.inRange · 0 99) (·.year_mod_100) (fun p f => { p with year_mod_100 := f }) (fun _ _ => rfl) (inRange_inj 0 99) p p1 a b h
+theorem twice_isoyear (p p1 : Parsed) (a b : Int) (h : p.set_isoyear a = .ok p1) :
+    (∃ p2, p1.set_isoyear b = .ok p2) ↔ a = b :=
+  twice_generic Parsed.toI32 (·.isoyear) (fun p f => { p with isoyear := f }) (fun _ _ => rfl) toI32_inj p p1 a b h
+theorem twice_isoyear_div_100 (p p1 : Parsed) (a b : Int) (h : p.set_isoyear_div_100 a = .ok p1) :
+    (∃ p2, p1.set_isoyear_div_100 b = .ok p2) ↔ a = b :=
+  twice_generic (Parsed.inRange · 0 I32_MAX) (·.isoyear_div_100) (fun p f => { p with isoyear_div_100 := f }) (fun _ _ => rfl) (inRange_inj 0 I32_MAX) p p1 a b h
+theorem twice_isoyear_mod_100 (p p1 : Parsed) (a b : Int) (h : p.set_isoyear_mod_100 a = .ok p1) :
+    (∃ p2, p1.set_isoyear_mod_100 b = .ok p2) ↔ a = b :=
+  twice_generic (Parsed.inRange · 0 99) (·.isoyear_mod_100) (fun p f => { p with isoyear_mod_100 := f }) (fun _ _ => rfl) (inRange_inj 0 99) p p1 a b h
+theorem twice_quarter (p p1 : Parsed) (a b : Int) (h : p.set_quarter a = .ok p1) :
+    (∃ p2, p1.set_quarter b = .ok p2) ↔ a = b :=
+  twice_generic (Parsed.inRange · 1 4) (·.quarter) (fun p f => { p with quarter := f }) (fun _ _ => rfl) (inRange_inj 1 4) p p1 a b h
+theorem twice_month (p p1 : Parsed) (a b : Int) (h : p.set_month a = .ok p1) :
+    (∃ p2, p1.set_month b = .ok p2) ↔ a = b :=
+  twice_generic (Parsed.inRange · 1 12) (·.month) (fun p f => { p with month := f }) (fun _ _ => rfl) (inRange_inj 1 12) p p1 a b h
+theorem twice_week_from_sun (p p1 : Parsed) (a b : Int) (h : p.set_week_from_sun a = .ok p1) :
+    (∃ p2, p1.set_week_from_sun b = .ok p2) ↔ a = b :=
+  twice_generic (Parsed.inRange · 0 53) (·.week_from_sun) (fun p f => { p with week_from_sun := f }) (fun _ _ => rfl) (inRange_inj 0 53) p p1 a b h
+theorem twice_week_from_mon (p p1 : Parsed) (a b : Int) (h : p.set_week_from_mon a = .ok p1) :
+    (∃ p2, p1.set_week_from_mon b = .ok p2) ↔ a = b :=
+  twice_generic (Parsed.inRange · 0 53) (·.week_from_mon) (fun p f => { p with week_from_mon := f }) (fun _ _ => rfl) (inRange_inj 0 53) p p1 a b h
+theorem twice_isoweek (p p1 : Parsed) (a b : Int) (h : p.set_isoweek a = .ok p1) :
+    (∃ p2, p1.set_isoweek b = .ok p2) ↔ a = b :=
+  twice_generic (Parsed.inRange · 1 53) (·.isoweek) (fun p f => { p with isoweek := f }) (fun _ _ => rfl) (inRange_inj 1 53) p p1 a b h
+theorem twice_ordinal (p p1 : Parsed) (a b : Int) (h : p.set_ordinal a = .ok p1) :
+    (∃ p2, p1.set_ordinal b = .ok p2) ↔ a = b :=
+  twice_generic (Parsed.inRange · 1 366) (·.ordinal) (fun p f => { p with ordinal := f }) (fun _ _ => rfl) (inRange_inj 1 366) p p1 a b h
+theorem twice_day (p p1 : Parsed) (a b : Int) (h : p.set_day a = .ok p1) :
+    (∃ p2, p1.set_day b = .ok p2) ↔ a = b :=
+  twice_generic (Parsed.inRange · 1 31) (·.day) (fun p f => { p with day := f }) (fun _ _ => rfl) (inRange_inj 1 31) p p1 a b h
+theorem twice_minute (p p1 : Parsed) (a b : Int) (h : p.set_minute a = .ok p1) :
+    (∃ p2, p1.set_minute b = .ok p2) ↔ a = b :=
+  twice_generic (Parsed.inRange · 0 59) (·.minute) (fun p f => { p with minute := f }) (fun _ _ => rfl) (inRange_inj 0 59) p p1 a b h
+theorem twice_second (p p1 : Parsed) (a b : Int) (h : p.set_second a = .ok p1) :
+    (∃ p2, p1.set_second b = .ok p2) ↔ a = b :=
+  twice_generic (Parsed.inRange · 0 60) (·.second) (fun p f => { p with second := f }) (fun _ _ => rfl) (inRange_inj 0 60) p p1 a b h
+theorem twice_nanosecond (p p1 : Parsed) (a b : Int) (h : p.set_nanosecond a = .ok p1) :
+    (∃ p2, p1.set_nanosecond b = .ok p2) ↔ a = b :=
+  twice_generic (Parsed.inRange · 0 999999999) (·.nanosecond) (fun p f => { p with nanosecond := f }) (fun _ _ => rfl) (inRange_inj 0 999999999) p p1 a b h
+theorem twice_offset (p p1 : Parsed) (a b : Int) (h : p.set_offset a = .ok p1) :
+    (∃ p2, p1.set_offset b = .ok p2) ↔ a = b :=
+  twice_generic Parsed.toI32 (·.offset) (fun p f => { p with offset := f }) (fun _ _ => rfl) toI32_inj p p1 a b h
+theorem twice_timestamp (p p1 : Parsed) (a b : Int) (h : p.set_timestamp a = .ok p1) :
+    (∃ p2, p1.set_timestamp b = .ok p2) ↔ a = b :=
+  twice_generic (fun v => .ok v) (·.timestamp) (fun p f => { p with timestamp := f }) (fun _ _ => rfl)
+    (fun a b x y h1 h2 => by cases h1; cases h2; rfl) p p1 a b h
 
 theorem ebind_ok {ε α β} (x : Except ε α) (f : α → Except ε β) (b : β) :
     (x >>= f) = .ok b ↔ ∃ a, x = .ok a ∧ f a = .ok b := by
